@@ -37,7 +37,7 @@ theorem brOK_of_block (cx : Cx) (fuel : Nat) (E : Nat) (s0 : St) (env : Src.Env)
     (hBody : PieceOK cx ops sa sb (fun k b => Src.trStmts fuel [] env (toSrcStmts body) k b) env)
     (hpb : processBlock bps true true ops sb = .ok (blk, sc)) (hok : HdrsOK hs) (hnm : NamesOf hs bps)
     (hpos : ∀ b ∈ bps, b.positive = !neg) (hstk : SameStk s0 sa) :
-    BrOK cx fuel E s0 env ⟨neg, hs, body, blk.hdrs, patchNone E blk.items⟩ ∧ SameStk sb sc ∧ NoNone blk.hdrs ∧
+    BrOK cx fuel E s0 env ⟨neg, hs, body, blk.hdrs, patchNone E blk.items, sc⟩ ∧ SameStk sb sc ∧ NoNone blk.hdrs ∧
       NoNone (patchNone E blk.items) ∧ patchNone E blk.items ≠ [] := by
   obtain ⟨hst, hshape⟩ := processBlock_shape hpb
   rcases hshape with ⟨l, hsc, hitems, hstart, hh⟩ | ⟨hsc, sL, js, hitems, hstart, hne, hjs, hh⟩
@@ -55,9 +55,9 @@ theorem brOK_of_block (cx : Cx) (fuel : Nat) (E : Nat) (s0 : St) (env : Src.Env)
         exact ⟨hc.1.2, hc.2⟩
       · cases hsc
     have hP : patchNone E blk.items = [.label (sb.lbc + 1) false] := by rw [hitems]; rfl
-    refine ⟨⟨hok, hBody.grow, fun _ => ⟨bps, fun _ => l, l, hh, fun _ _ => rfl, hnm, ?_⟩, fun hn => ?_⟩, hst, hdrsTo_nonone hh, ?_, ?_⟩
-    · intro r ib _ k b _ m j hex _
-      obtain ⟨n, htr, hsem⟩ := hBody.lone l hlone m j (exitsOK_stk hex hstk)
+    refine ⟨⟨hok, hBody.grow, fun _ => ⟨bps, fun _ => l, l, hh, fun _ _ => rfl, hnm, ?_⟩, fun hn => ?_, ?_⟩, hst, hdrsTo_nonone hh, ?_, ?_⟩
+    · intro r ib _ k b _ m j hex hin _
+      obtain ⟨n, htr, hsem⟩ := hBody.lone l hlone m j (exitsOK_stk hex hstk) (NamedIn.le hin hst.3)
       simp only [htr k b]
       exact hsem
     · exfalso
@@ -68,6 +68,10 @@ theorem brOK_of_block (cx : Cx) (fuel : Nat) (E : Nat) (s0 : St) (env : Src.Env)
         have h1 := hpos b0 (by simp)
         have h2 := hallpos.2 b0 (by simp)
         rw [h2] at h1; cases h1
+    · intro r ib _ k b _ m j hex hin _
+      obtain ⟨n, htr, _⟩ := hBody.lone l hlone m j (exitsOK_stk hex hstk) (NamedIn.le hin hst.3)
+      simp only [htr k b]
+      exact LabExport.same (fun _ _ => rfl)
     · rw [hP]; intro x hx root e; simp at hx; subst hx; cases e
     · rw [hP]; simp
   · -- the block with its labels
@@ -82,14 +86,14 @@ theorem brOK_of_block (cx : Cx) (fuel : Nat) (E : Nat) (s0 : St) (env : Src.Env)
         simp [patchNone, patchItem]
     -- entering at the start label
     have henter : ∀ r ib, Placed cx.rs r ib (patchNone E blk.items) → ∀ k b,
-        AgreeOn cx.N b (Src.trStmts fuel [] env (toSrcStmts body) k b).1 → ∀ m j, ExitsOK cx m j s0 env →
+        AgreeOn cx.N cx.Z b (Src.trStmts fuel [] env (toSrcStmts body) k b).1 → ∀ m j, ExitsOK cx m j s0 env → NamedIn cx sc →
         R2 cx m j (target cx.rs E) k →
         R2 cx m j ⟨r, ib⟩ (Src.trStmts fuel [] env (toSrcStmts body) k b).2 ∧ target cx.rs sL = ⟨r, ib⟩ := by
-      intro r ib hp k b hag m j hex hend
+      intro r ib hp k b hag m j hex hin hend
       rw [hP] at hp
       have hp' : Placed cx.rs r ib ([LItem.label sL false] ++ ops ++ (tail' ++ [LItem.label (sb.lbc + 1) false])) := by
         simpa [List.append_assoc] using hp
-      refine block_enter cx hBody sL _ hp' k b hag m j (exitsOK_stk hex hstk) (fun hf => ?_)
+      refine block_enter cx hBody sL _ hp' k b hag m j (exitsOK_stk hex hstk) (NamedIn.le hin hst.3) (fun hf => ?_)
       obtain ⟨o, rfl⟩ := htail hf
       have hit : itemAt cx.rs ⟨r, ib + 1 + ops.length⟩ = some (.ljump ⟨o, Gen.op_jump, []⟩ (some E)) := by
         have := hp'.item (d := 1 + ops.length) (x := .ljump ⟨o, Gen.op_jump, []⟩ (some E))
@@ -105,17 +109,31 @@ theorem brOK_of_block (cx : Cx) (fuel : Nat) (E : Nat) (s0 : St) (env : Src.Env)
       · exact hBody.nonone x hx root e
       · exact hnt x hx root e
       · cases e
+    have hlabs : ∀ r ib, Placed cx.rs r ib (patchNone E blk.items) → ∀ k b,
+        AgreeOn cx.N cx.Z b (Src.trStmts fuel [] env (toSrcStmts body) k b).1 → ∀ m j, ExitsOK cx m j s0 env → NamedIn cx sc →
+        R2 cx m j (target cx.rs E) k → LabExport cx env m j b (Src.trStmts fuel [] env (toSrcStmts body) k b).1 := by
+      intro r ib hp k b hag m j hex hin hend
+      rw [hP] at hp
+      have hp' : Placed cx.rs r ib ([LItem.label sL false] ++ ops ++ (tail' ++ [LItem.label (sb.lbc + 1) false])) := by
+        simpa [List.append_assoc] using hp
+      refine block_labs cx hBody sL _ hp' k b hag m j (exitsOK_stk hex hstk) (NamedIn.le hin hst.3) (fun hf => ?_)
+      obtain ⟨o, rfl⟩ := htail hf
+      have hit : itemAt cx.rs ⟨r, ib + 1 + ops.length⟩ = some (.ljump ⟨o, Gen.op_jump, []⟩ (some E)) := by
+        have := hp'.item (d := 1 + ops.length) (x := .ljump ⟨o, Gen.op_jump, []⟩ (some E))
+          (by rw [show 1 + ops.length = ops.length + 1 by omega]; simp)
+        simpa [Nat.add_assoc] using this
+      exact end_jump_corr cx E hit hend
     refine ⟨⟨hok, hBody.grow, fun hn => ⟨bps, _, sL, hh, fun b hb => ?_, hnm, ?_⟩,
-        fun hn => ⟨bps, _, sb.lbc + 1, [.label sL false] ++ ops ++ tail', hh, fun b hb => ?_, hnm, hP, ?_⟩⟩,
+        fun hn => ⟨bps, _, sb.lbc + 1, [.label sL false] ++ ops ++ tail', hh, fun b hb => ?_, hnm, hP, ?_⟩, hlabs⟩,
       hst, hdrsTo_nonone hh, hnn, by rw [hP]; simp⟩
     · have hn' : neg = false := hn
       simp [hpos b hb, hn']
-    · intro r ib hp k b hag m j hex hend
-      obtain ⟨h1, h2⟩ := henter r ib hp k b hag m j hex hend
+    · intro r ib hp k b hag m j hex hin hend
+      obtain ⟨h1, h2⟩ := henter r ib hp k b hag m j hex hin hend
       rw [h2]; exact h1
     · have hn' : neg = true := hn
       simp [hpos b hb, hn']
-    · intro r ib hp k b hag m j hex hend
-      exact (henter r ib hp k b hag m j hex hend).1
+    · intro r ib hp k b hag m j hex hin hend
+      exact (henter r ib hp k b hag m j hex hin hend).1
 
 end ESV.Comp
